@@ -1503,6 +1503,10 @@ class _Src:
         self.env, self.trail, self.pool, self.key = env, trail, pool, key
 
 
+class _NotTraced(AnalysisError):
+    pass
+
+
 class _CancelFlow:
 
     def __init__(self, prog):
@@ -1800,13 +1804,18 @@ def r04_5(prog, rep, rid='R04.5'):
     if not sites:
         raise AnalysisError('UNRECOGNISED-IDIOM %s: no CANCELED hand-on'
                             % f.where)
+    errs, done = [], 0
     for ctx, h in sites:
-        _cancel_site(prog, rep, rid, f, cf, ctx, h,
-                     [c for x, c in sites if x is ctx])
-
-
-def _hop_nodes(s, kinds=('append', 'extend', 'return')):
-    return [hop for hop in s.trail if hop[0] in kinds]
+        try:
+            _cancel_site(prog, rep, rid, f, cf, ctx, h,
+                         [c for x, c in sites if x is ctx])
+            done += 1
+        except _NotTraced as e:
+            # a CANCELED hand-on of something which does not come from the
+            # wait pool (another helper's business) - unless it is the only one
+            errs.append(e)
+    if not done:
+        raise AnalysisError(str(errs[0]))
 
 
 def _cancel_site(prog, rep, rid, f, cf, ctx, h, hands):
@@ -1826,6 +1835,11 @@ def _cancel_site(prog, rep, rid, f, cf, ctx, h, hands):
                 _formula(g.nodes[t].ast), {lst: True}) == (lab == 'T'))}
     srcs = cf.elems(thing, ctx, hn, None, ())
     other = [s for s in srcs if s.kind == 'other']
+    if other and not any(s.kind in ('pop', 'look') for s in srcs):
+        raise _NotTraced(
+            'UNRECOGNISED-IDIOM %s: `%s` (handed on as CANCELED) receives '
+            '`%s`, which is not traced to a lookup in the wait pool'
+            % (fx.where, lst, short(other[0].node, 40)))
     if other:
         raise AnalysisError(
             'UNRECOGNISED-IDIOM %s: `%s` (handed on as CANCELED) receives '
@@ -1857,7 +1871,6 @@ def _cancel_site(prog, rep, rid, f, cf, ctx, h, hands):
     colls = []                       # cfg nodes (of ctx) which fill the list
     for s in taken:
         c = s.ctx
-        hops = _hop_nodes(s)
         for hop in s.trail:
             if hop[1] is ctx and hop[0] in ('append', 'extend') or \
                     hop[1] is ctx and hop[0] == 'assign' and \
@@ -2429,6 +2442,9 @@ def r04_8(prog, rep, rid='R04.8'):
                 break
             return a
 
+        indexes = {x.slice.id for x in walk(f.node)
+                   if isinstance(x, ast.Subscript) and
+                   isinstance(x.slice, ast.Name)}
         sites = []                       # (ast for loc, [(compare, label)])
         for n in g.stmt_nodes():
             if n.kind != 'stmt':
@@ -2456,6 +2472,12 @@ def r04_8(prog, rep, rid='R04.8'):
                 l, r = cmp_.left, cmp_.comparators[0]
                 sl, sr = side(l), side(r)
                 if {sl, sr} != {'req', 'cap'}:
+                    continue
+                # an index compared with a length is a different boundary
+                # (`i >= len(x)` is the right refusal there): not decided here
+                rq, cp = (l, r) if sl == 'req' else (r, l)
+                if (isinstance(cp, ast.Call) and dotted(cp.func) == 'len') or \
+                        (isinstance(rq, ast.Name) and rq.id in indexes):
                     continue
                 rel = set(_ORDER[type(cmp_.ops[0])][0 if lab == 'T' else 1])
                 if sl == 'cap':          # relation of request vs offer
@@ -2498,15 +2520,25 @@ def run(prog, rep, tier):
         'the reclaim step (first result true) to the next reclaim step (the '
         'boolean locals of the loop are evaluated abstractly, the results of '
         'the three steps are unconstrained); cancel of waiting tasks '
-        'removes and reports together, keyed by the requested uid.')
+        'removes and reports together, keyed by the requested uid (values '
+        'are followed through appends, comprehensions and helper methods; '
+        'pop and get+del are both removals); is_canceled answers true for a '
+        'scheduler task exactly on the paths on which it handed the task on '
+        'as CANCELED (key tests on the task dict are evaluated for a task '
+        'that has passed advance); schedule_task refuses a task on a '
+        'request/offer comparison only when the request is strictly larger.')
     rep.undecided = ('absence of starvation in general and "as soon as" '
         '(timing of the loop); the bisect heuristics of ru.lazy_bisect.')
     rep.assumptions = [
         'effects are atomic (an advance either happened or raised before '
         'having an effect)',
         'ru.lazy_bisect returns a partition (good, bad, failed) of its input',
-        'BaseComponent.is_canceled(task) hands the task on as CANCELED '
-        'exactly when it returns True (checked by C08)',
+        'a task that reaches the scheduling loop has passed '
+        'BaseComponent.advance (work() advances the bulk to AGENT_SCHEDULING '
+        'before it queues it) and therefore carries the keys advance reads '
+        'on every thing (uid, type, state)',
+        'wait pool values are task dicts (truthy): `pool.get(uid)` being '
+        'truthy and `uid in pool` coincide',
     ]
     rep.attempt(r04_1, prog, rep)
     rep.attempt(r04_2, prog, rep)
